@@ -1,0 +1,136 @@
+//! verification hook (cfg simple_dns_verif only): a drop-in for `std::sync::RwLock` that keeps, per thread, which of these
+//! locks the thread currently holds, and records every acquisition made by a thread that already holds the same lock
+//! (read under read, read under write, write under read, write under write). std's RwLock may deadlock in each of these
+//! cases; whether it does depends on timing, which is why the acquisition itself is what gets recorded.
+//! No logic of the library changes: every call is forwarded to the std lock.
+
+use std::cell::RefCell;
+use std::collections::HashMap;
+use std::ops::{Deref, DerefMut};
+use std::sync::{LockResult, Mutex, PoisonError, RwLockReadGuard, RwLockWriteGuard};
+
+thread_local! {
+    /// lock address -> (read guards, write guards) held by this thread
+    static HELD: RefCell<HashMap<usize, (u32, u32)>> = RefCell::new(HashMap::new());
+}
+static REPORTS: Mutex<Vec<String>> = Mutex::new(Vec::new());
+
+/// The reports recorded so far (and forgets them).
+pub fn take_reports() -> Vec<String> {
+    REPORTS.lock().map(|mut r| std::mem::take(&mut *r)).unwrap_or_default()
+}
+
+fn note(id: usize, wanted: &str, at: &std::panic::Location<'_>) {
+    let (r, w) = HELD.with(|h| h.borrow().get(&id).copied().unwrap_or((0, 0)));
+    if r > 0 || w > 0 {
+        let held = if w > 0 { "write" } else { "read" };
+        let thread = std::thread::current().name().unwrap_or("<unnamed>").to_string();
+        if let Ok(mut rep) = REPORTS.lock() {
+            if rep.len() < 64 {
+                rep.push(format!("{}-while-holding-{} at {}:{} (thread {})", wanted, held, at.file(), at.line(), thread));
+            }
+        }
+    }
+}
+
+fn bump(id: usize, read: bool, delta: i32) {
+    HELD.with(|h| {
+        let mut h = h.borrow_mut();
+        let e = h.entry(id).or_insert((0, 0));
+        let slot = if read { &mut e.0 } else { &mut e.1 };
+        *slot = (*slot as i32 + delta).max(0) as u32;
+        if *e == (0, 0) {
+            h.remove(&id);
+        }
+    });
+}
+
+pub struct RwLock<T> {
+    inner: std::sync::RwLock<T>,
+}
+
+impl<T: std::fmt::Debug> std::fmt::Debug for RwLock<T> {
+    fn fmt(&self, f: &mut std::fmt::Formatter<'_>) -> std::fmt::Result {
+        self.inner.fmt(f)
+    }
+}
+
+pub struct ReadGuard<'a, T> {
+    guard: RwLockReadGuard<'a, T>,
+    id: usize,
+}
+
+pub struct WriteGuard<'a, T> {
+    guard: RwLockWriteGuard<'a, T>,
+    id: usize,
+}
+
+impl<T> RwLock<T> {
+    pub fn new(value: T) -> Self {
+        Self { inner: std::sync::RwLock::new(value) }
+    }
+
+    fn id(&self) -> usize {
+        &self.inner as *const _ as usize
+    }
+
+    #[track_caller]
+    pub fn read(&self) -> LockResult<ReadGuard<'_, T>> {
+        let id = self.id();
+        note(id, "read", std::panic::Location::caller());
+        let r = match self.inner.read() {
+            Ok(guard) => Ok(ReadGuard { guard, id }),
+            Err(p) => Err(PoisonError::new(ReadGuard { guard: p.into_inner(), id })),
+        };
+        bump(id, true, 1);
+        r
+    }
+
+    #[track_caller]
+    pub fn write(&self) -> LockResult<WriteGuard<'_, T>> {
+        let id = self.id();
+        note(id, "write", std::panic::Location::caller());
+        let r = match self.inner.write() {
+            Ok(guard) => Ok(WriteGuard { guard, id }),
+            Err(p) => Err(PoisonError::new(WriteGuard { guard: p.into_inner(), id })),
+        };
+        bump(id, false, 1);
+        r
+    }
+
+    pub fn is_poisoned(&self) -> bool {
+        self.inner.is_poisoned()
+    }
+}
+
+impl<T> Deref for ReadGuard<'_, T> {
+    type Target = T;
+    fn deref(&self) -> &T {
+        &self.guard
+    }
+}
+
+impl<T> Drop for ReadGuard<'_, T> {
+    fn drop(&mut self) {
+        bump(self.id, true, -1);
+    }
+}
+
+impl<T> Deref for WriteGuard<'_, T> {
+    type Target = T;
+    fn deref(&self) -> &T {
+        &self.guard
+    }
+}
+
+impl<T> DerefMut for WriteGuard<'_, T> {
+    fn deref_mut(&mut self) -> &mut T {
+        &mut self.guard
+    }
+}
+
+impl<T> Drop for WriteGuard<'_, T> {
+    fn drop(&mut self) {
+        bump(self.id, false, -1);
+    }
+}
